@@ -32,6 +32,12 @@ fn lit_meta(w: &mut ZW) {
     rec(w, "lit_meta()".into());
 }
 
+// the regex metacharacters `lit_meta` does not have
+#[when("yes|no + maybe? {d} ^e\\f # & g-h ~ ok")]
+fn lit_meta2(w: &mut ZW) {
+    rec(w, "lit_meta2()".into());
+}
+
 #[then("naïve café ☕")]
 async fn lit_unicode(w: &mut ZW) {
     rec(w, "lit_unicode()".into());
@@ -246,6 +252,7 @@ pub fn entries() -> Vec<Entry> {
         Entry { func: "lit_given", kw: Given, re: r"^a literal step$", expect: |_, _| Some("lit_given()".into()), templates: &["a literal step"] },
         Entry { func: "lit_when", kw: When, re: r"^a literal step$", expect: |_, _| Some("lit_when()".into()), templates: &["a literal step"] },
         Entry { func: "lit_meta", kw: Then, re: r"^price is \$5\.00 \(approx\.\) \[x\]\*$", expect: |_, _| Some("lit_meta()".into()), templates: &["price is $5.00 (approx.) [x]*"] },
+        Entry { func: "lit_meta2", kw: When, re: r"^yes\|no \+ maybe\? \{d\} \^e\\f # & g-h ~ ok$", expect: |_, _| Some("lit_meta2()".into()), templates: &["yes|no + maybe? {d} ^e\\f # & g-h ~ ok"] },
         Entry { func: "lit_unicode", kw: Then, re: r"^naïve café ☕$", expect: |_, _| Some("lit_unicode()".into()), templates: &["naïve café ☕"] },
         Entry { func: "apples", kw: Given, re: r"^(\d+) apples$", expect: |c, _| g(c, 1).parse::<u32>().ok().map(|n| format!("apples({n})")), templates: &["{n} apples"] },
         Entry { func: "eat", kw: When, re: r"eat (\d+)", expect: |c, _| g(c, 1).parse::<u8>().ok().map(|n| format!("eat({n})")), templates: &["eat {n}", "please eat {n} now"] },
@@ -269,7 +276,7 @@ pub fn entries() -> Vec<Entry> {
         Entry { func: "have", kw: Given, re: r"^I have (-?\d+) cucumber(?:s)?$", expect: |c, _| g(c, 1).parse::<i32>().ok().map(|n| format!("have({n})")), templates: &["I have {n} cucumbers", "I have {n} cucumber", "I have -{n} cucumbers"] },
         Entry { func: "says", kw: When, re: r#"^([^\s]+) says ("(?:[^"\\]*(?:\\.[^"\\]*)*)"|'(?:[^'\\]*(?:\\.[^'\\]*)*)')$"#, expect: |c, _| Some(format!("says({:?},{:?})", g(c, 1), unq(g(c, 2)))), templates: &["{w} says {q}"] },
         Entry { func: "mood", kw: Then, re: r"^I am (?:happy|sad)$", expect: |_, _| Some("mood()".into()), templates: &["I am happy", "I am sad"] },
-        Entry { func: "temp", kw: Given, re: r"^temperature is ([+-]?(?:\d+\.\d+|\d+))$", expect: |c, _| g(c, 1).parse::<f64>().ok().map(|f| format!("temp({f})")), templates: &["temperature is {f}", "temperature is {n}"] },
+        Entry { func: "temp", kw: Given, re: r"^temperature is ([+-]?(?:inf|NaN|(?:\d+|\d+\.\d*|\d*\.\d+)(?:[eE][+-]?\d+)?))$", expect: |c, _| g(c, 1).parse::<f64>().ok().map(|f| format!("temp({f})")), templates: &["temperature is {f}", "temperature is {n}"] },
         Entry { func: "any", kw: When, re: r"^anything (.*) goes$", expect: |c, _| Some(format!("any({:?})", g(c, 1))), templates: &["anything {x} goes", "anything  goes"] },
         Entry { func: "custom", kw: Then, re: r"^custom (\d+)$", expect: |c, _| g(c, 1).parse::<u64>().ok().map(|n| format!("custom({n})")), templates: &["custom {n}", "custom 99999999999999999999999"] },
         Entry { func: "eyes", kw: Given, re: r"^([^\s]+) has (red|green|blue) eyes and (-?\d+) toe(?:s)?$", expect: |c, _| {
